@@ -906,7 +906,7 @@ def ex_helpers(p, seed):
 
 # ---------------------------------------------------------------------------------------------- families
 
-Q1_STATES = ["z0", "pure_generic", "pure_fourier", "mixed_generic", "maxmixed", "aligned_x0"]
+Q1_STATES = ["z0", "pure_generic", "pure_fourier", "mixed_generic", "maxmixed", "aligned_x0", "nearly_aligned_x0"]
 Q1_POVMS = {2: ["generic_m2", "rank1_m2", "projective_m2", "comp_m2", "aligned_pz"], 3: ["generic_m3", "rank1_m3", "withzero_m3"],
             4: ["generic_m4", "rank1_m4", "withzero_m4"]}
 Q1_GATES = ["identity", "unitary_generic", "unitary_fourier", "dephasing", "ampdamp", "kraus_generic_r2", "kraus_generic_r4", "depolarizing"]
